@@ -1,11 +1,11 @@
-SPECIFICATION Spec
+SPECIFICATION SpecDump
 CONSTANTS
   MCCat <- CatNet
   MCSub <- SubNet
   RootClasses <- RootsNet
   FilterStrs <- FilterNet
   AssignSpecs <- AssignNet
-  MaxSteps = 2
+  MaxSteps = 3
   DirectCalls = TRUE
 CONSTRAINT Bound
 ACTION_CONSTRAINT Dump
